@@ -1557,7 +1557,7 @@ func (e *Engine) builtin(name string, a []Value, in *ssa.Call) Value {
 		spare := e.spec.Cfg["appendspare"]
 		arr := &StructV{F: make([]Value, 0, sn+tn+spare)}
 		for i := int64(0); i < sn; i++ {
-			arr.F = append(arr.F, sa.Val.(*StructV).F[so+i])
+			arr.F = append(arr.F, copyVal(sa.Val.(*StructV).F[so+i])) // struct elements are values: the new array gets copies
 		}
 		for _, s := range src {
 			arr.F = append(arr.F, copyVal(s))
